@@ -137,7 +137,7 @@ fn main() {
             sink.finish(props::c01::RULE, serde_json::json!({}));
         }
         "C04" => {
-            let mut sink = cases::CaseSink::new("C04", "Model.Pipe Corr.C01 Corr.C04", &opts.out, 12);
+            let mut sink = cases::CaseSink::new("C04", "Model.Pipe Corr.C01 Corr.C04", &opts.out, 3);
             props::jobs::generate_c04(&opts, &mut sink);
             sink.finish(props::jobs::RULE_C04, serde_json::json!({}));
         }
